@@ -70,6 +70,47 @@ pub fn shape(spec: &RuleSpec) -> String {
 }
 
 pub fn check_spec(spec: &RuleSpec, level: u8, doc_cap: usize) -> Stats {
+    check_spec_docs(spec, gen::docs_for(spec, level, doc_cap))
+}
+
+/// quantified lists on ARRAY fields: only the bound both readings share is asserted (see refint)
+fn array_quantifier_cases() -> Vec<(RuleSpec, Vec<crate::mdoc::MObj>)> {
+    use crate::gen::{e, list, st, Body};
+    use crate::mdoc::{arr, s, MObj};
+    let members = ["?a", "?x", "?b$", "a*", "*z", "?^ab", "i?A"];
+    let docs: Vec<MObj> = vec![
+        vec!["a", "ab"], vec!["a", "b"], vec!["ab", "ab"], vec!["a", "a", "a"], vec!["x"], vec![], vec!["b", "ab", "zb"],
+    ]
+    .into_iter()
+    .map(|v| MObj::new().with("f", arr(v.into_iter().map(s).collect())))
+    .collect();
+    let mut out = vec![];
+    for (i, a) in members.iter().enumerate() {
+        for b in members.iter().skip(i + 1) {
+            for key in ["of(f, 2)", "all(f)", "of(f, 1)"] {
+                for cond in ["A", "not A"] {
+                    out.push((
+                        RuleSpec { idents: vec![("A".into(), Body::Map(vec![e(key, list(vec![st(a), st(b)]))]))], cond: cond.into() },
+                        docs.clone(),
+                    ));
+                }
+            }
+            for c in members.iter().take(3) {
+                out.push((
+                    RuleSpec::one(Body::Map(vec![e("of(f, 3)", list(vec![st(a), st(b), st(c)]))])),
+                    docs.clone(),
+                ));
+                out.push((
+                    RuleSpec::one(Body::Map(vec![e("of(f, 2)", list(vec![st(a), st(b), st(c)]))])),
+                    docs.clone(),
+                ));
+            }
+        }
+    }
+    out
+}
+
+pub fn check_spec_docs(spec: &RuleSpec, docs: Vec<crate::mdoc::MObj>) -> Stats {
     let mut st = Stats::default();
     let yaml = spec.yaml();
     let rule = match eng::load(&yaml) {
@@ -87,7 +128,6 @@ pub fn check_spec(spec: &RuleSpec, level: u8, doc_cap: usize) -> Stats {
             return st;
         }
     };
-    let docs = gen::docs_for(spec, level, doc_cap);
     let mut any_t = false;
     let mut any_nt = false;
     let mut singleton = 0u64;
@@ -157,6 +197,12 @@ pub fn run(tier: Tier) -> i32 {
     for p in parts {
         rep.stats.merge(p);
     }
+    let ac = array_quantifier_cases();
+    let parts: Vec<Stats> = ac.par_iter().map(|(sp, d)| check_spec_docs(sp, d.clone())).collect();
+    for p in parts {
+        rep.stats.merge(p);
+    }
+    rep.stats.count("array_quantifier_rules", ac.len() as u64);
     rep.stats.count("rule_specs_enumerated", specs.len() as u64);
     rep.rule = "every loadable rule of the bounded universe (unoptimised) x the full product of per-field value alphabets; each (rule, document) is one model trace: the set-valued reference interpreter (own condition parser, pattern parser, path resolver, regex matcher; works from the YAML text) predicts a set of three-valued results and the engine's result must be a member, and matches() must equal (result == true). non-trivial = the rule is discriminating on its document set".into();
     rep.assumptions = vec![
